@@ -500,6 +500,12 @@ def check_container(case, ctx):
     # containers hand their delta to the elements (the container's own sample_size uses another convention, 1/(n-1),
     # which is not part of this property), so the density is set through delta
     cont.delta = 1.0 / n
+    if case["n"] % 3 == 0:
+        # a refused density (outside (0, 1)) leaves the one that was set
+        try:
+            cont.delta = 1.0
+        except ValueError:
+            ctx.label("after-a-refused-delta")
     if case["n"] % 2:
         cont.tessellator = tessellate.TriangularTessellate()        # the documented way to choose the algorithm for all members
         ctx.label("tessellator-set-through-container")
